@@ -50,7 +50,7 @@ mod verif_c11 {
         (rig_pstate(pos, len, 0, status), pos, len)
     }
 
-    // @harness id=C11 tier=thorough timeout=3400 mem=24
+    // @harness id=C11 tier=deep timeout=3400 mem=24
     // @bounds {pos} and {len}: pos/len < 1000, length known or unknown (a missing length renders as the position), in progress or finished
     #[kani::proof]
     #[kani::unwind(12)]
@@ -69,7 +69,7 @@ mod verif_c11 {
         std::mem::forget(ps);
     }
 
-    // @harness id=C11 tier=thorough timeout=3400 mem=24
+    // @harness id=C11 tier=deep timeout=3400 mem=24
     // @bounds {human_pos} and {human_len}: the public HumanCount formatter applied to position / length-or-position, values < 1000 and the concrete 4- and 7-digit values 1234 / 1234567
     #[kani::proof]
     #[kani::unwind(12)]
@@ -97,7 +97,7 @@ mod verif_c11 {
         std::mem::forget(ps);
     }
 
-    // @harness id=C11 tier=thorough timeout=3400 mem=24
+    // @harness id=C11 tier=deep timeout=3400 mem=24
     // @bounds {msg}, {prefix}: current message / prefix from a table of strings (incl. empty); {spinner}: tick string tick % (n-1) while in progress (tick < 8, 3 tick strings), the final tick string once finished
     #[kani::proof]
     #[kani::unwind(12)]
@@ -140,7 +140,7 @@ mod verif_c11 {
         std::mem::forget(ps);
     }
 
-    // @harness id=C11 tier=thorough timeout=3400 mem=24
+    // @harness id=C11 tier=deep timeout=3400 mem=24
     // @bounds {elapsed_precise}: FormattedDuration of the elapsed time at the (frozen) draw instant, elapsed < 1000 s; {eta_precise} / {duration_precise} of a finished bar: 00:00:00
     #[kani::proof]
     #[kani::unwind(12)]
@@ -171,7 +171,7 @@ mod verif_c11 {
         std::mem::forget(ps);
     }
 
-    // @harness id=C11 tier=thorough timeout=3400 mem=24
+    // @harness id=C11 tier=deep timeout=3400 mem=24
     // @bounds unknown keys expand to nothing (no line at all for a template consisting of one unknown key)
     #[kani::proof]
     #[kani::unwind(12)]
@@ -211,7 +211,7 @@ mod verif_c11 {
         }
     }
 
-    // @harness id=C11 tier=thorough timeout=3000 mem=14
+    // @harness id=C11 tier=deep timeout=3000 mem=14
     // @bounds a custom key registered with with_key: write() receives the current state (position over u64), its output is the placeholder's expansion; thorough tier because of the hash-map machinery
     #[kani::proof]
     #[kani::unwind(12)]
